@@ -999,10 +999,50 @@ pub unsafe extern "C" fn epoll_wait(_ep: c_int, evs: *mut libc::epoll_event, max
     n
 }
 
+
+// ------------------------------------------------------------------------------------------------
+// Traps.  Under -Z c-ffi a foreign function without a definition is NOT rejected: CBMC silently
+// gives it a nondeterministic result (seen with fcntl).  Every system call the crate could make
+// and this kernel does not model is therefore defined here as a failing assertion; the runner maps
+// an "UNMODELLED" failure to "inconclusive".
+macro_rules! trap {
+    ($($name:ident ( $($t:ty),* ) -> $r:ty = $v:expr;)*) => {
+        $(
+            #[no_mangle]
+            pub unsafe extern "C" fn $name($(_: $t),*) -> $r {
+                assert!(false, concat!("UNMODELLED libc call: ", stringify!($name)));
+                $v
+            }
+        )*
+        pub fn link_traps() {
+            $( core::hint::black_box($name as unsafe extern "C" fn($($t),*) -> $r); )*
+        }
+    };
+}
+trap! {
+    bind(c_int, *const libc::sockaddr, socklen_t) -> c_int = -1;
+    listen(c_int, c_int) -> c_int = -1;
+    accept(c_int, *mut libc::sockaddr, *mut socklen_t) -> c_int = -1;
+    accept4(c_int, *mut libc::sockaddr, *mut socklen_t, c_int) -> c_int = -1;
+    sendto(c_int, *const c_void, size_t, c_int, *const libc::sockaddr, socklen_t) -> ssize_t = -1;
+    recvfrom(c_int, *mut c_void, size_t, c_int, *mut libc::sockaddr, *mut socklen_t) -> ssize_t = -1;
+    dup2(c_int, c_int) -> c_int = -1;
+    dup3(c_int, c_int, c_int) -> c_int = -1;
+    pipe(*mut c_int) -> c_int = -1;
+    pipe2(*mut c_int, c_int) -> c_int = -1;
+    eventfd(libc::c_uint, c_int) -> c_int = -1;
+    shutdown(c_int, c_int) -> c_int = -1;
+    memfd_create(*const c_char, libc::c_uint) -> c_int = -1;
+    unlink(*const c_char) -> c_int = -1;
+    rmdir(*const c_char) -> c_int = -1;
+    mkdir(*const c_char, mode_t) -> c_int = -1;
+}
+
 // ------------------------------------------------------------------------------------------------
 // linking and ledger
 
 pub fn link() {
+    link_traps();
     use core::hint::black_box as bb;
     bb(__errno_location as unsafe extern "C" fn() -> *mut c_int);
     bb(socketpair as unsafe extern "C" fn(c_int, c_int, c_int, *mut c_int) -> c_int);
